@@ -7,4 +7,7 @@ TWs == {15, 18, 21, 24, 27, 30, 33, 36, 45, 60}
 \* the real constants of the code (RATIO 12, overlap 576) for sampled lengths
 RNS == {1, 11, 12, 13, 575, 576, 577, 1151, 1152, 1153, 1200, 1201, 2399, 2400, 2401, 3000, 3611, 3612, 3613, 5000, 7223, 7224, 7225}
 RWs == {1200, 2400, 3612, 60000}
+\* windows barely longer than the overlap (thorough tier): 588 = overlap + RATIO (stride of one LF sample, every sample lies in
+\* up to 49 windows), 600, 1152 = 2 * overlap (a sample lies in up to two / three windows)
+RWsSmall == {588, 600, 1152}
 ====
